@@ -459,9 +459,10 @@ func TestC07(t *testing.T) {
 					st = "cancelled"
 				}
 				obs = append(obs, fmt.Sprintf("%d=%s", u, st))
-			case "out":
+			case "out", "outfail":
 				// match the reply to an admitted batch by its ids, record verdicts, emit the delivery
-				rep := []byte(strings.TrimPrefix(e, "out "))
+				// (a reply whose Send failed has been disposed of all the same: the calls are over)
+				rep := []byte(strings.TrimPrefix(strings.TrimPrefix(e, "outfail "), "out "))
 				var entries []struct {
 					ID    json.RawMessage `json:"id"`
 					Error *struct {
@@ -534,6 +535,9 @@ func TestC07(t *testing.T) {
 			if rng.Intn(5) == 0 {
 				sc.DeadCtxAt = 1 + rng.Intn(4)
 			}
+			if rng.Intn(5) == 0 {
+				sc.SendFailAt = 1 + rng.Intn(4) // one reply is lost in transport; the server carries on
+			}
 			sc.Ops = c07Traffic(rng, 3+rng.Intn(5))
 			for k := rng.Intn(3); k > 0; k-- {
 				sc.Ops = insertOp(rng, sc.Ops, envOp{Kind: "cancel", Arg: []string{"1", "2", "3", "9", `"x"`}[rng.Intn(5)]})
@@ -557,6 +561,8 @@ func TestC07(t *testing.T) {
 			&srvScenario{Concurrency: 2, DeadCtxAt: 1, Ops: []envOp{{Kind: "send", Arg: c07Mark(0, reqCall(1, "c1", "ok"), reqCall(2, "Hc2", "ok"))}, {Kind: "send", Arg: c07Mark(1, reqCall(1, "c3", "ok"))}}},
 			&srvScenario{Concurrency: 3, DeadCtxAt: 2, Ops: []envOp{{Kind: "send", Arg: c07Mark(0, reqCall(2, "Hc1", "ok"), reqCall(1, "c2", "ok"))}, {Kind: "send", Arg: c07Mark(1, reqCall(1, "c3", "ok"))}, {Kind: "send", Arg: c07Mark(2, reqCall(1, "c4", "ok"))}}},
 			&srvScenario{Concurrency: 2, Ops: []envOp{{Kind: "send", Arg: c07Mark(0, `{"jsonrpc":"2.0","id":7,"params":["c1","ok"]}`)}, {Kind: "send", Arg: c07Mark(1, reqCall(7, "c2", "ok"))}}},
+			// the reply to a batch is lost in transport: its calls are over, their ids free again
+			&srvScenario{Concurrency: 2, SendFailAt: 1, Ops: []envOp{{Kind: "send", Arg: c07Mark(0, reqCall(1, "c1", "ok"), reqCall(2, "c2", "err"))}, {Kind: "send", Arg: c07Mark(1, reqCall(1, "c3", "ok"))}, {Kind: "send", Arg: c07Mark(2, reqCall(2, "c4", "ok"))}}},
 			&srvScenario{Concurrency: 2, Ops: []envOp{{Kind: "send", Arg: c07Mark(0, `{"jsonrpc":"2.0","id":"x","method":"m","params":["c1","ok"],"zz":1}`)}, {Kind: "send", Arg: c07Mark(1, reqCall("x", "c2", "ok"))}}},
 		)
 		for _, sc := range corpus {
